@@ -274,7 +274,9 @@ func (m *MonC05) PostTx(ctx sdk.Context, t *ExecTx) {
 }
 func (m *MonC05) AfterBlock(s *Sim, eb *ExecBlock) {
 	m.observe(s.Ctx(), "EndBlock", map[uint64]string{0: "mixed"})
-	if eb.Height%29 == 0 {
+	// not under the edge-case governance agent (C18 profile): fee parameters pushed to their limits
+	// and converted pools are outside C05's quantifier
+	if eb.Height%29 == 0 && s.Cfg.rate("govedge") == 0 {
 		m.roundTrips(s)
 	}
 }
